@@ -22,6 +22,20 @@ Fixpoint All3 {A B C} (P : A -> B -> C -> Prop) (la : list A) (lb : list B) (lc 
   | _, _, _ => False
   end.
 
+Fixpoint All4 {A B C D} (P : A -> B -> C -> D -> Prop) (la : list A) (lb : list B) (lc : list C) (ld : list D) : Prop :=
+  match la, lb, lc, ld with
+  | a :: la', b :: lb', c :: lc', d :: ld' => P a b c d /\ All4 P la' lb' lc' ld'
+  | [], [], [], [] => True
+  | _, _, _, _ => False
+  end.
+
+Lemma All4_length {A B C D} (P : A -> B -> C -> D -> Prop) la : forall lb lc ld, All4 P la lb lc ld ->
+  length la = length lb /\ length la = length lc /\ length la = length ld.
+Proof.
+  induction la as [|a la IH]; intros [|b lb] [|c lc] [|d ld] H; cbn in *; try tauto.
+  destruct H as [_ H]. destruct (IH _ _ _ H) as (H1 & H2 & H3). repeat split; f_equal; assumption.
+Qed.
+
 Lemma All2_length {A B} (P : A -> B -> Prop) la : forall lb, All2 P la lb -> length la = length lb.
 Proof.
   induction la as [|a la IH]; intros [|b lb] H; cbn in *; try tauto. f_equal. apply IH. tauto.
@@ -38,7 +52,9 @@ Proof.
 Qed.
 
 (* ---- well-formedness of one dimension ---- *)
-Definition var_ok (v : varR) : Prop := 0 < v_sigma v /\ 0 < v_width v.
+Definition var_ok (v : varR) : Prop := 0 < v_width v.
+(* widths of a hill (or of the configuration): one positive sigma per variable *)
+Definition sig_ok (vs : list varR) (sg : list R) : Prop := length sg = length vs /\ Forall (Rlt 0) sg.
 Definition bound_ok (v : varR) (b : boundR) : Prop :=
   b_upper b = b_lower b + IZR (b_nx b) * v_width v /\ (0 < b_nx b)%Z.
 (* a variable on a grid is a scalar; a grid that spans the period of its variable is not expanded
@@ -158,57 +174,72 @@ Proof.
       destruct (Rltb a (f v)) eqn:E; [lra|apply Rltb_false in E; lra].
 Qed.
 
+(* hillWidth given: sigma_i = width_i * hillWidth / 2 *)
 Definition sigmas_ok (c : cfgR) : Prop :=
-  0 < c_hill_width c -> Forall (fun v => v_sigma v = v_width v * c_hill_width c / 2) (c_vars c).
+  0 < c_hill_width c -> All2 (fun v si => si = v_width v * c_hill_width c / 2) (c_vars c) (c_sigmas c).
 
-Lemma hw_bins_ge (c : cfgR) : sigmas_ok c -> Forall var_ok (c_vars c) ->
-  forall v, In v (c_vars c) -> 2 * v_sigma v / v_width v <= hw_bins Rops c.
+Lemma hwb_max_ge vs : forall sg w0, Forall var_ok vs -> length sg = length vs ->
+  w0 <= hwb_max Rops vs sg w0 /\ All2 (fun v si => 2 * si / v_width v <= hwb_max Rops vs sg w0) vs sg.
 Proof.
-  intros Hs Hv v Hin. unfold hw_bins. cbn [nltb n0 Rops].
+  induction vs as [|v vs IH]; intros sg w0 Hv Hl.
+  - destruct sg; [|discriminate]. cbn. split; [lra|exact I].
+  - destruct sg as [|si sg]; [discriminate|]. inversion Hv as [|v0 l0 Hv1 Hvs]; subst. cbn [length] in Hl.
+    cbn [hwb_max All2]. cbn [ndiv nmul nofZ nltb Rops].
+    set (w1 := if Rltb w0 (2 * si / v_width v) then 2 * si / v_width v else w0).
+    destruct (IH sg w1 Hvs ltac:(lia)) as [H1 H2].
+    assert (Hw1 : w0 <= w1 /\ 2 * si / v_width v <= w1).
+    { unfold w1. destruct (Rltb w0 (2 * si / v_width v)) eqn:E; [apply Rltb_true in E|apply Rltb_false in E]; lra. }
+    split; [lra|]. split; [lra|]. exact H2.
+Qed.
+
+Lemma All2_mono_val {A B} (P Q : A -> B -> Prop) la : forall lb, (forall a b, P a b -> Q a b) -> All2 P la lb -> All2 Q la lb.
+Proof. exact (All2_impl P Q la). Qed.
+
+(* the configured widths against hill_width_bins() *)
+Lemma hw_bins_ge (c : cfgR) : sigmas_ok c -> Forall var_ok (c_vars c) -> sig_ok (c_vars c) (c_sigmas c) ->
+  All2 (fun v si => 2 * si / v_width v <= hw_bins Rops c) (c_vars c) (c_sigmas c).
+Proof.
+  intros Hs Hv [Hl _]. unfold hw_bins. cbn [nltb n0 Rops].
   destruct (Rltb 0 (c_hill_width c)) eqn:E.
-  - apply Rltb_true in E. specialize (Hs E). rewrite Forall_forall in Hs, Hv.
-    rewrite (Hs v Hin). destruct (Hv v Hin) as [_ Hw]. right. field. lra.
-  - cbn [ndiv nmul nofZ Rops].
-    destruct (fold_max_ge (fun v => 2 * v_sigma v / v_width v) (c_vars c) (c_hill_width c)) as [_ H].
-    apply H. exact Hin.
+  - apply Rltb_true in E. specialize (Hs E). revert Hs Hv. generalize (c_sigmas c) as sg. generalize (c_vars c) as vs.
+    induction vs as [|v vs IH]; intros [|si sg] Hs Hv; cbn [All2] in *; try tauto.
+    inversion Hv as [|v0 l0 Hv1 Hvs]; subst. destruct Hs as [Hs1 Hs2]. split; [|apply IH; assumption].
+    rewrite Hs1. unfold var_ok in Hv1. right. field. lra.
+  - destruct (hwb_max_ge (c_vars c) (c_sigmas c) (c_hill_width c) Hv Hl) as [_ H]. exact H.
 Qed.
 
-(* margin * width exceeds the range of a hill *)
-Lemma margin_covers (c : cfgR) v : sigmas_ok c -> Forall var_ok (c_vars c) -> In v (c_vars c) ->
-  6 * v_sigma v + v_width v <= off_margin Rops c * v_width v.
+(* min_buffer * width exceeds six sigmas of the configured widths *)
+Lemma min_buffer_covers (c : cfgR) : sigmas_ok c -> Forall var_ok (c_vars c) -> sig_ok (c_vars c) (c_sigmas c) ->
+  All2 (fun v si => 6 * si < IZR (min_buffer Rops c) * v_width v) (c_vars c) (c_sigmas c).
 Proof.
-  intros Hs Hv Hin. pose proof (hw_bins_ge c Hs Hv v Hin) as H.
-  rewrite Forall_forall in Hv. destruct (Hv v Hin) as [Hsg Hw].
-  unfold off_margin. cbn [nadd nmul nofZ n1 Rops].
-  assert (H2 : 2 * v_sigma v <= hw_bins Rops c * v_width v).
-  { apply Rmult_le_compat_r with (r := v_width v) in H; [|lra].
-    unfold Rdiv in H. rewrite Rmult_assoc, Rinv_l, Rmult_1_r in H by lra. exact H. }
-  lra.
-Qed.
-
-Lemma min_buffer_covers (c : cfgR) v : sigmas_ok c -> Forall var_ok (c_vars c) -> In v (c_vars c) ->
-  6 * v_sigma v < IZR (min_buffer Rops c) * v_width v.
-Proof.
-  intros Hs Hv Hin. pose proof (hw_bins_ge c Hs Hv v Hin) as H.
-  rewrite Forall_forall in Hv. destruct (Hv v Hin) as [Hsg Hw].
+  intros Hs Hv Hsg. pose proof (hw_bins_ge c Hs Hv Hsg) as H. revert H Hv.
   unfold min_buffer. cbn [nfloor nmul nofZ Rops]. rewrite plus_IZR. simpl (IZR 1).
-  pose proof (Zfloor_ub (3 * hw_bins Rops c)) as Hub.
-  assert (H2 : 2 * v_sigma v <= hw_bins Rops c * v_width v).
-  { apply Rmult_le_compat_r with (r := v_width v) in H; [|lra].
-    unfold Rdiv in H. rewrite Rmult_assoc, Rinv_l, Rmult_1_r in H by lra. exact H. }
-  assert (H3 : 3 * hw_bins Rops c * v_width v < (IZR (Zfloor (3 * hw_bins Rops c)) + 1) * v_width v)
-    by (apply Rmult_lt_compat_r; lra).
+  pose proof (Zfloor_ub (3 * hw_bins Rops c)) as Hub. set (hb := hw_bins Rops c) in *.
+  generalize (c_sigmas c) as sg. generalize (c_vars c) as vs.
+  induction vs as [|v vs IH]; intros [|si sg] H Hv; cbn [All2] in *; try tauto.
+  inversion Hv as [|v0 l0 Hv1 Hvs]; subst. destruct H as [H1 H2]. split; [|apply IH; assumption].
+  unfold var_ok in Hv1.
+  assert (H3 : 2 * si <= hb * v_width v).
+  { apply Rmult_le_compat_r with (r := v_width v) in H1; [|lra].
+    unfold Rdiv in H1. rewrite Rmult_assoc, Rinv_l, Rmult_1_r in H1 by lra. exact H1. }
+  assert (H4 : 3 * hb * v_width v < (IZR (Zfloor (3 * hb)) + 1) * v_width v) by (apply Rmult_lt_compat_r; lra).
   lra.
 Qed.
 
-Lemma margin_pos (c : cfgR) v : sigmas_ok c -> Forall var_ok (c_vars c) -> In v (c_vars c) ->
-  0 < off_margin Rops c.
+(* the margin of a hill (from its own widths) times the width exceeds the range of the hill *)
+Lemma margin_covers (c : cfgR) sg : Forall var_ok (c_vars c) -> length sg = length (c_vars c) ->
+  1 <= off_margin Rops c sg /\
+  All2 (fun v si => 6 * si + v_width v <= off_margin Rops c sg * v_width v) (c_vars c) sg.
 Proof.
-  intros Hs Hv Hin. pose proof (margin_covers c v Hs Hv Hin) as H.
-  rewrite Forall_forall in Hv. destruct (Hv v Hin) as [Hsg Hw].
-  destruct (Rle_or_lt (off_margin Rops c) 0) as [Hle|Hlt]; [|exact Hlt].
-  assert (off_margin Rops c * v_width v <= 0).
-  { replace 0 with (0 * v_width v) by ring. apply Rmult_le_compat_r; lra. }
+  intros Hv Hl. unfold off_margin, hw_bins_h. cbn [nadd nmul nofZ n1 n0 Rops].
+  destruct (hwb_max_ge (c_vars c) sg 0 Hv Hl) as [H0 H]. set (hb := hwb_max Rops (c_vars c) sg 0) in *.
+  split; [lra|]. revert H Hv. generalize sg as sg'. generalize (c_vars c) as vs.
+  induction vs as [|v vs IH]; intros [|si sg'] H Hv; cbn [All2] in *; try tauto.
+  inversion Hv as [|v0 l0 Hv1 Hvs]; subst. destruct H as [H1 H2]. split; [|apply IH; assumption].
+  unfold var_ok in Hv1.
+  assert (H3 : 2 * si <= hb * v_width v).
+  { apply Rmult_le_compat_r with (r := v_width v) in H1; [|lra].
+    unfold Rdiv in H1. rewrite Rmult_assoc, Rinv_l, Rmult_1_r in H1 by lra. exact H1. }
   lra.
 Qed.
 
@@ -217,8 +248,6 @@ Qed.
 Section Far.
   Variable c : cfgR.
   Local Notation vs := (c_vars c).
-  Hypothesis Hsig : sigmas_ok c.
-  Hypothesis Hvars : Forall var_ok vs.
 
   (* the two distances of bin_distance_from_boundaries for one dimension *)
   Definition dlow (v : varR) (b : boundR) (x : R) : R :=
@@ -284,14 +313,14 @@ Section Far.
   Qed.
 
   (* one dimension: the value is beyond the grid, the centre is at least M bins inside it *)
-  Lemma dim_far (M : R) (v : varR) (b : boundR) (xs cs : R) :
-    var_ok v -> bound_ok v b -> adm_var v b xs -> v_gperiodic v = false ->
+  Lemma dim_far (M : R) (v : varR) (si : R) (b : boundR) (xs cs : R) :
+    var_ok v -> 0 < si -> bound_ok v b -> adm_var v b xs -> v_gperiodic v = false ->
     ((v_hard_lo v = false -> M <= dlow v b cs) /\ (v_hard_up v = false -> M <= dupp v b cs)) ->
-    0 < M -> 6 * v_sigma v + v_width v <= M * v_width v ->
+    0 < M -> 6 * si + v_width v <= M * v_width v ->
     ~ (0 <= value_to_bin Rops (b_lower b) (v_width v) xs < b_nx b)%Z ->
-    23 < mdiff v xs cs * mdiff v xs cs / (v_sigma v * v_sigma v).
+    23 < mdiff v xs cs * mdiff v xs cs / (si * si).
   Proof.
-    intros [Hs Hw] [Hu Hn] (Ha1 & Ha2 & Ha3) G [Hfl Hfu] HM Hcov Hout.
+    intros Hw Hs [Hu Hn] (Ha1 & Ha2 & Ha3) G [Hfl Hfu] HM Hcov Hout. unfold var_ok in Hw.
     assert (Hside : xs < b_lower b \/ b_upper b <= xs).
     { destruct (Z_lt_dec (value_to_bin Rops (b_lower b) (v_width v) xs) 0) as [Hneg|Hnn].
       - left. apply (vtb_neg _ _ _ Hw Hneg).
@@ -301,11 +330,11 @@ Section Far.
     { destruct (v_periodic v) eqn:P; [|reflexivity]. specialize (Ha1 eq_refl G). lra. }
     assert (Hmd : forall a b0, mdiff v a b0 = a - b0) by (intros; unfold mdiff; rewrite Hper; reflexivity).
     rewrite Hmd.
-    assert (Hgoal : 6 * v_sigma v < Rabs (xs - cs) -> 23 < (xs - cs) * (xs - cs) / (v_sigma v * v_sigma v)).
-    { intros H6. assert (Hsq : 36 * (v_sigma v * v_sigma v) < (xs - cs) * (xs - cs)).
+    assert (Hgoal : 6 * si < Rabs (xs - cs) -> 23 < (xs - cs) * (xs - cs) / (si * si)).
+    { intros H6. assert (Hsq : 36 * (si * si) < (xs - cs) * (xs - cs)).
       { unfold Rabs in H6. destruct (Rcase_abs (xs - cs)); nra. }
-      assert (Hs2 : 0 < v_sigma v * v_sigma v) by nra.
-      apply Rmult_lt_reg_r with (r := v_sigma v * v_sigma v); [exact Hs2|].
+      assert (Hs2 : 0 < si * si) by nra.
+      apply Rmult_lt_reg_r with (r := si * si); [exact Hs2|].
       unfold Rdiv. rewrite Rmult_assoc, Rinv_l by lra. lra. }
     apply Hgoal.
     destruct Hside as [Hlo|Hup].
@@ -344,41 +373,43 @@ Section Far.
     gbins Rops (v :: us) (b :: g) (xv :: x) = wbin v b (scR xv) :: gbins Rops us g x.
   Proof. unfold gbins. cbn [cbins wrapix]. unfold wbin. rewrite sc_R. reflexivity. Qed.
 
-  Lemma term_nonneg (v : varR) xi ci : var_ok v -> 0 <= D v xi ci / (v_sigma v * v_sigma v).
+  Lemma term_nonneg (v : varR) (si : R) xi ci : 0 <= D v xi ci / (si * si).
   Proof.
-    intros [Hs _]. pose proof (D_nonneg v xi ci). assert (0 < v_sigma v * v_sigma v) by nra.
-    apply Rmult_le_pos; [lra|left; apply Rinv_0_lt_compat; lra].
+    pose proof (D_nonneg v xi ci). destruct (Req_dec (si * si) 0) as [E|E].
+    - rewrite E. unfold Rdiv. rewrite Rinv_0. lra.
+    - assert (0 < si * si) by (pose proof (Rle_0_sqr si); unfold Rsqr in *; lra).
+      apply Rmult_le_pos; [lra|left; apply Rinv_0_lt_compat; lra].
   Qed.
 
   (* list level: off the grid, a centre at least M bins from every (non-periodic, non-hard) edge is out of range *)
-  Lemma far_outside_gen (M : R) us : forall g x cx,
+  Lemma far_outside_gen (M : R) us : forall g sg x cx,
     Forall var_ok us -> Forall gvar_ok us -> All2 bound_ok us g ->
     All3 (fun v b xv => adm_var v b (scR xv)) us g x ->
     All3 (far_var M) us g cx ->
-    0 < M -> (forall v, In v us -> 6 * v_sigma v + v_width v <= M * v_width v) ->
+    0 < M -> All2 (fun v si => 0 < si /\ 6 * si + v_width v <= M * v_width v) us sg ->
     index_ok (gsizes g) (gbins Rops us g x) = false ->
-    23 < Qexp us x cx.
+    23 < Qexp us sg x cx.
   Proof.
-    induction us as [|v us IH]; intros g x cx Hv Hgv Hb Ha Hf HM Hcov Hout.
+    induction us as [|v us IH]; intros g sg x cx Hv Hgv Hb Ha Hf HM Hcov Hout.
     - destruct g; [|contradiction]. destruct x; [|contradiction]. cbn in Hout. discriminate.
     - destruct g as [|b g]; [contradiction|]. destruct x as [|xv x]; [contradiction|].
-      destruct cx as [|cv cx]; [contradiction|].
-      cbn [All2] in Hb. cbn [All3] in Ha, Hf. destruct Hb as [Hb Hbs]. destruct Ha as [Ha Has]. destruct Hf as [Hf Hfs].
+      destruct cx as [|cv cx]; [contradiction|]. destruct sg as [|si sg]; [contradiction|].
+      cbn [All2] in Hb, Hcov. cbn [All3] in Ha, Hf. destruct Hb as [Hb Hbs]. destruct Ha as [Ha Has]. destruct Hf as [Hf Hfs].
+      destruct Hcov as [[Hsi Hc1] Hcs].
       inversion Hv as [|v0 l0 Hv1 Hvs]; subst. inversion Hgv as [|v0 l0 Hg1 Hgs]; subst.
       rewrite gbins_cons in Hout. cbn [gsizes map index_ok] in Hout. cbn [Qexp].
-      pose proof (Qexp_nonneg us x cx) as Hq. pose proof (term_nonneg v xv cv Hv1) as Ht.
+      pose proof (Qexp_nonneg us sg x cx) as Hq. pose proof (term_nonneg v si xv cv) as Ht.
       destruct ((0 <=? wbin v b (scR xv))%Z && (wbin v b (scR xv) <? b_nx b)%Z) eqn:Ehead.
       + cbn [andb] in Hout.
-        assert (23 < Qexp us x cx).
-        { apply (IH g x cx Hvs Hgs Hbs Has Hfs HM); [|exact Hout]. intros u Hu. apply Hcov. right. exact Hu. }
+        assert (23 < Qexp us sg x cx) by (apply (IH g sg x cx Hvs Hgs Hbs Has Hfs HM Hcs Hout)).
         lra.
       + assert (Hnot : ~ (0 <= wbin v b (scR xv) < b_nx b)%Z).
         { intros [H1 H2]. apply Z.leb_le in H1. apply Z.ltb_lt in H2. rewrite H1, H2 in Ehead. discriminate. }
         destruct (v_gperiodic v) eqn:G.
         * exfalso. apply Hnot. unfold wbin. rewrite G. apply wrap_in_range. destruct Hb as [_ Hn]. exact Hn.
         * unfold wbin in Hnot. rewrite G in Hnot.
-          assert (Hd : 23 < mdiff v (scR xv) (scR cv) * mdiff v (scR xv) (scR cv) / (v_sigma v * v_sigma v)).
-          { apply (dim_far M v b (scR xv) (scR cv) Hv1 Hb Ha G (Hf G) HM); [|exact Hnot]. apply Hcov. left. reflexivity. }
+          assert (Hd : 23 < mdiff v (scR xv) (scR cv) * mdiff v (scR xv) (scR cv) / (si * si)).
+          { apply (dim_far M v si b (scR xv) (scR cv) Hv1 Hsi Hb Ha G (Hf G) HM Hc1 Hnot). }
           destruct Hg1 as [Hk _]. unfold D in *. rewrite Hk in *. lra.
   Qed.
 End Far.
@@ -421,7 +452,7 @@ Section Expand.
   Lemma expand_var_spec v b xs : var_ok v ->
     gstep v b (expand_var Rops c v b xs) /\ buffer_ok v (expand_var Rops c v b xs) xs.
   Proof.
-    intros [Hs Hw]. unfold expand_var. destruct (v_expand v) eqn:Ex; cbn [negb].
+    intros Hw. unfold var_ok in Hw. unfold expand_var. destruct (v_expand v) eqn:Ex; cbn [negb].
     2:{ split; [apply gstep_refl|]. intros H. rewrite Ex in H. discriminate. }
     set (cb := value_to_bin Rops (b_lower b) (v_width v) xs).
     destruct (negb (v_hard_lo v) && (cb <? mb)%Z) eqn:E1; lazy beta iota zeta.
@@ -511,50 +542,52 @@ Section Expand.
     - split; [apply All3_refl_gstep; exact Hg|apply buffer_vacuous; assumption].
   Qed.
 
-  (* every hill stays at least min_buffer bins inside the expandable edges *)
-  Definition clear_var (v : varR) (b : boundR) (cv : valueR) : Prop :=
+  (* every hill stays at least six of its sigmas inside the expandable edges *)
+  Definition clear_var (v : varR) (b : boundR) (cv : valueR) (si : R) : Prop :=
     v_expand v = true ->
-    (v_hard_lo v = false -> b_lower b + IZR mb * v_width v <= scR cv) /\
-    (v_hard_up v = false -> scR cv < b_upper b - IZR mb * v_width v).
+    (v_hard_lo v = false -> b_lower b + 6 * si <= scR cv) /\
+    (v_hard_up v = false -> scR cv <= b_upper b - 6 * si).
 
-  Lemma buffer_clear v b (xv : valueR) : var_ok v -> bound_ok v b -> buffer_ok v b (scR xv) -> clear_var v b xv.
+  Lemma buffer_clear v b (xv : valueR) si : var_ok v -> bound_ok v b -> 6 * si < IZR mb * v_width v ->
+    buffer_ok v b (scR xv) -> clear_var v b xv si.
   Proof.
-    intros [Hs Hw] [Hu Hn] Hb Ex. destruct (Hb Ex) as [H1 H2]. split; intros H.
-    - apply (vtb_ge _ _ _ _ Hw (H1 H)).
+    intros Hw [Hu Hn] Hcov Hb Ex. unfold var_ok in Hw. destruct (Hb Ex) as [H1 H2]. split; intros H.
+    - pose proof (vtb_ge _ _ _ _ Hw (H1 H)). lra.
     - specialize (H2 H).
       assert (Hlt : (value_to_bin Rops (b_lower b) (v_width v) (scR xv) < b_nx b - mb)%Z) by lia.
       pose proof (vtb_lt _ _ _ _ Hw Hlt) as Hx. rewrite minus_IZR in Hx. rewrite Hu. lra.
   Qed.
 
-  Lemma clear_gstep v b b' cv : var_ok v -> gstep v b b' -> clear_var v b cv -> clear_var v b' cv.
+  Lemma clear_gstep v b b' cv si : var_ok v -> gstep v b b' -> clear_var v b cv si -> clear_var v b' cv si.
   Proof.
-    intros [Hs Hw] (k & k' & A1 & A2 & A3 & A4 & _) Hc Ex. destruct (Hc Ex) as [H1 H2].
+    intros Hw (k & k' & A1 & A2 & A3 & A4 & _) Hc Ex. unfold var_ok in Hw. destruct (Hc Ex) as [H1 H2].
     assert (Hk1 : 0 <= IZR k * v_width v) by (apply Rmult_le_pos; [apply IZR_le; lia|lra]).
     assert (Hk2 : 0 <= IZR k' * v_width v) by (apply Rmult_le_pos; [apply IZR_le; lia|lra]).
     split; intros Hh; [specialize (H1 Hh)|specialize (H2 Hh)]; rewrite ?A3, ?A4; lra.
   Qed.
 
-  Lemma All3_buffer_clear us : forall g x, Forall var_ok us -> All2 bound_ok us g ->
-    All3 (fun v b' xv => buffer_ok v b' (scR xv)) us g x -> All3 clear_var us g x.
+  Lemma All4_buffer_clear us : forall g x sg, Forall var_ok us -> All2 bound_ok us g ->
+    All2 (fun v si => 6 * si < IZR mb * v_width v) us sg ->
+    All3 (fun v b' xv => buffer_ok v b' (scR xv)) us g x -> All4 clear_var us g x sg.
   Proof.
-    induction us as [|v us IH]; intros g x Hv Hb H.
-    - destruct g; [|contradiction]. destruct x; [|contradiction]. exact I.
-    - destruct g as [|b g]; [contradiction|]. destruct x as [|xv x]; [contradiction|].
-      inversion Hv as [|v0 l0 Hv1 Hvs]; subst. cbn [All2 All3] in *.
-      destruct Hb as [Hb1 Hb2]. destruct H as [H1 H2].
+    induction us as [|v us IH]; intros g x sg Hv Hb Hc H.
+    - destruct g; [|contradiction]. destruct x; [|contradiction]. destruct sg; [|contradiction]. exact I.
+    - destruct g as [|b g]; [contradiction|]. destruct x as [|xv x]; [contradiction|]. destruct sg as [|si sg]; [contradiction|].
+      inversion Hv as [|v0 l0 Hv1 Hvs]; subst. cbn [All2 All3 All4] in *.
+      destruct Hb as [Hb1 Hb2]. destruct H as [H1 H2]. destruct Hc as [Hc1 Hc2].
       split; [apply buffer_clear; assumption|apply IH; assumption].
   Qed.
 
-  Lemma All3_clear_gstep us : forall g g' cx, Forall var_ok us ->
-    All3 (fun v b b' => gstep v b b') us g g' -> All3 clear_var us g cx -> All3 clear_var us g' cx.
+  Lemma All4_clear_gstep us : forall g g' cx sg, Forall var_ok us ->
+    All3 (fun v b b' => gstep v b b') us g g' -> All4 clear_var us g cx sg -> All4 clear_var us g' cx sg.
   Proof.
-    induction us as [|v us IH]; intros g g' cx Hv Hs Hc.
+    induction us as [|v us IH]; intros g g' cx sg Hv Hs Hc.
     - destruct g; [|contradiction]. destruct g'; [|contradiction]. exact Hc.
     - destruct g as [|b g]; [contradiction|]. destruct g' as [|b' g']; [contradiction|].
-      destruct cx as [|cv cx]; [contradiction|].
-      inversion Hv as [|v0 l0 Hv1 Hvs]; subst. cbn [All3] in *.
+      destruct cx as [|cv cx]; [contradiction|]. destruct sg as [|si sg]; [contradiction|].
+      inversion Hv as [|v0 l0 Hv1 Hvs]; subst. cbn [All3 All4] in *.
       destruct Hs as [Hs1 Hs2]. destruct Hc as [Hc1 Hc2].
-      split; [apply (clear_gstep v b b' cv Hv1 Hs1 Hc1)|apply (IH g g' cx Hvs Hs2 Hc2)].
+      split; [apply (clear_gstep v b b' cv si Hv1 Hs1 Hc1)|apply (IH g g' cx sg Hvs Hs2 Hc2)].
   Qed.
 
   Lemma All2_bound_gstep us : forall g g', All2 bound_ok us g ->
@@ -596,7 +629,7 @@ Section Expand.
   Lemma remap_dim v b b' k k' i : var_ok v -> gstepk v b b' k k' ->
     value_to_bin Rops (b_lower b) (v_width v) (bin_to_value Rops (b_lower b') (v_width v) i) = (i - k)%Z.
   Proof.
-    intros [Hs Hw] (A1 & A2 & A3 & _). rewrite vtb_R, btv_R, A3.
+    intros Hw (A1 & A2 & A3 & _). unfold var_ok in Hw. rewrite vtb_R, btv_R, A3.
     apply Zfloor_imp. rewrite plus_IZR, minus_IZR. simpl (IZR 1).
     replace ((b_lower b - IZR k * v_width v + v_width v * (1 / 2 + IZR i) - b_lower b) / v_width v)
       with (IZR i - IZR k + 1 / 2) by (field; lra).
@@ -607,23 +640,23 @@ Section Expand.
     bin_to_value Rops (b_lower b) (v_width v) (i - k) = bin_to_value Rops (b_lower b') (v_width v) i.
   Proof. intros (A1 & A2 & A3 & _). rewrite !btv_R, A3, minus_IZR. ring. Qed.
 
-  Lemma new_bin_dim v b b' k k' i (cv : valueR) : var_ok v -> bound_ok v b -> gvar_ok v -> gstepk v b b' k k' ->
-    clear_var v b cv -> 6 * v_sigma v < IZR mb * v_width v ->
+  Lemma new_bin_dim v b b' k k' i (cv : valueR) si : var_ok v -> 0 < si -> bound_ok v b -> gvar_ok v -> gstepk v b b' k k' ->
+    clear_var v b cv si ->
     (0 <= i < b_nx b')%Z -> ~ (0 <= i - k < b_nx b)%Z ->
-    23 < D v [bin_to_value Rops (b_lower b') (v_width v) i] cv / (v_sigma v * v_sigma v).
+    23 < D v [bin_to_value Rops (b_lower b') (v_width v) i] cv / (si * si).
   Proof.
-    intros [Hs Hw] [Hu Hn] [Hk Hg] (A1 & A2 & A3 & A4 & A5 & A6 & A7) Hc Hcov Hi Hout.
+    intros Hw Hs [Hu Hn] [Hk Hg] (A1 & A2 & A3 & A4 & A5 & A6 & A7) Hc Hi Hout. unfold var_ok in Hw.
     assert (Hex : v_expand v = true).
     { destruct (v_expand v) eqn:E; [reflexivity|]. rewrite (A6 (or_introl eq_refl)), (A7 (or_introl eq_refl)) in *. lia. }
     destruct (Hg Hex) as [Hper _]. destruct (Hc Hex) as [Hc1 Hc2].
     unfold D. rewrite Hk. unfold mdiff. rewrite Hper. cbn [scR]. rewrite btv_R, A3.
     set (ctr := b_lower b - IZR k * v_width v + v_width v * (1 / 2 + IZR i)).
-    assert (Hgoal : 6 * v_sigma v < Rabs (ctr - scR cv) ->
-                    23 < (ctr - scR cv) * (ctr - scR cv) / (v_sigma v * v_sigma v)).
-    { intros H6. assert (Hsq : 36 * (v_sigma v * v_sigma v) < (ctr - scR cv) * (ctr - scR cv)).
+    assert (Hgoal : 6 * si < Rabs (ctr - scR cv) ->
+                    23 < (ctr - scR cv) * (ctr - scR cv) / (si * si)).
+    { intros H6. assert (Hsq : 36 * (si * si) < (ctr - scR cv) * (ctr - scR cv)).
       { unfold Rabs in H6. destruct (Rcase_abs (ctr - scR cv)); nra. }
-      assert (Hs2 : 0 < v_sigma v * v_sigma v) by nra.
-      apply Rmult_lt_reg_r with (r := v_sigma v * v_sigma v); [exact Hs2|].
+      assert (Hs2 : 0 < si * si) by nra.
+      apply Rmult_lt_reg_r with (r := si * si); [exact Hs2|].
       unfold Rdiv. rewrite Rmult_assoc, Rinv_l by lra. lra. }
     apply Hgoal.
     destruct (Z_lt_dec (i - k) 0) as [Hlo|Hnl].
@@ -647,14 +680,13 @@ Section Expand.
   Lemma remap_lemma us : forall g g' ix,
     Forall var_ok us -> Forall gvar_ok us -> All2 bound_ok us g ->
     All3 (fun v b b' => gstep v b b') us g g' ->
-    (forall v, In v us -> 6 * v_sigma v < IZR mb * v_width v) ->
     index_ok (gsizes g') ix = true ->
     (index_ok (gsizes g) (remap_ix Rops us g' g ix) = true ->
        centre Rops us g (remap_ix Rops us g' g ix) = centre Rops us g' ix) /\
     (index_ok (gsizes g) (remap_ix Rops us g' g ix) = false ->
-       forall cx, All3 clear_var us g cx -> 23 < Qexp us (centre Rops us g' ix) cx).
+       forall cx sg, All4 clear_var us g cx sg -> Forall (Rlt 0) sg -> 23 < Qexp us sg (centre Rops us g' ix) cx).
   Proof.
-    induction us as [|v us IH]; intros g g' ix Hv Hgv Hb Hs Hcov Hix.
+    induction us as [|v us IH]; intros g g' ix Hv Hgv Hb Hs Hix.
     - destruct g; [|contradiction]. destruct g'; [|contradiction]. destruct ix; [|discriminate].
       cbn. split; [reflexivity|discriminate].
     - destruct g as [|b g]; [contradiction|]. destruct g' as [|b' g']; [contradiction|].
@@ -664,21 +696,21 @@ Section Expand.
       cbn [gsizes map index_ok] in Hix. apply andb_prop in Hix. destruct Hix as [Hi Hix].
       apply andb_prop in Hi. destruct Hi as [Hi1 Hi2]. apply Z.leb_le in Hi1. apply Z.ltb_lt in Hi2.
       destruct (proj1 (gstep_k v b b') Hs1) as (k & k' & Hk).
-      assert (Hcov' : forall u, In u us -> 6 * v_sigma u < IZR mb * v_width u) by (intros u Hu; apply Hcov; right; exact Hu).
-      destruct (IH g g' ix Hvs Hgs Hb2 Hs2 Hcov' Hix) as [IH1 IH2].
+      destruct (IH g g' ix Hvs Hgs Hb2 Hs2 Hix) as [IH1 IH2].
       cbn [remap_ix centre gsizes map index_ok]. rewrite (remap_dim v b b' k k' i Hv1 Hk).
       split.
       + intros H. apply andb_prop in H. destruct H as [_ H]. rewrite (IH1 H).
         rewrite (old_bin_dim v b b' k k' i Hk). reflexivity.
-      + intros H cx Hc. destruct cx as [|cv cx]; [contradiction|]. cbn [All3] in Hc. destruct Hc as [Hc1 Hc2].
+      + intros H cx sg Hc Hp. destruct cx as [|cv cx]; [contradiction|]. destruct sg as [|si sg]; [contradiction|].
+        cbn [All4] in Hc. destruct Hc as [Hc1 Hc2]. inversion Hp as [|s0 l0 Hp1 Hp2]; subst.
         cbn [Qexp].
-        pose proof (Qexp_nonneg us (centre Rops us g' ix) cx) as Hq.
-        pose proof (term_nonneg v [bin_to_value Rops (b_lower b') (v_width v) i] cv Hv1) as Ht.
+        pose proof (Qexp_nonneg us sg (centre Rops us g' ix) cx) as Hq.
+        pose proof (term_nonneg v si [bin_to_value Rops (b_lower b') (v_width v) i] cv) as Ht.
         destruct ((0 <=? i - k)%Z && (i - k <? b_nx b)%Z) eqn:Eh.
-        * cbn [andb] in H. specialize (IH2 H cx Hc2). lra.
+        * cbn [andb] in H. specialize (IH2 H cx sg Hc2 Hp2). lra.
         * assert (Hnot : ~ (0 <= i - k < b_nx b)%Z).
           { intros [H1 H2]. apply Z.leb_le in H1. apply Z.ltb_lt in H2. rewrite H1, H2 in Eh. discriminate. }
-          pose proof (new_bin_dim v b b' k k' i cv Hv1 Hb1 Hg1 Hk Hc1 (Hcov v (or_introl eq_refl)) (conj Hi1 Hi2) Hnot).
+          pose proof (new_bin_dim v b b' k k' i cv si Hv1 Hp1 Hb1 Hg1 Hk Hc1 (conj Hi1 Hi2) Hnot).
           lra.
   Qed.
 
@@ -686,7 +718,7 @@ Section Expand.
   Lemma wbin_step v b b' xs : var_ok v -> bound_ok v b -> gvar_ok v -> gstep v b b' ->
     (0 <= wbin v b xs < b_nx b)%Z -> (0 <= wbin v b' xs < b_nx b')%Z.
   Proof.
-    intros [Hs Hw] [Hu Hn] [_ Hg] (k & k' & A1 & A2 & A3 & A4 & A5 & A6 & A7) H. unfold wbin in *.
+    intros Hw [Hu Hn] [_ Hg] (k & k' & A1 & A2 & A3 & A4 & A5 & A6 & A7) H. unfold var_ok in Hw. unfold wbin in *.
     destruct (v_gperiodic v) eqn:G.
     - apply wrap_in_range. lia.
     - rewrite A3, vtb_shift by exact Hw. lia.
